@@ -22,9 +22,12 @@ theorem frames_bound_granular (major codec ch sr : Nat) (hg : codec ∈ sampleGr
   unfold blockFrames IMA MS GSM VOX NMS G72X
   rcases hg with h | h | h | h | h | h | h | h | h | h | h <;> subst h <;> simp_all
 
-/-- the pad allowance is at most one frame, and zero outside AIFF one-byte encodings -/
-theorem pad_bound (major codec ch : Nat) : padFrames major codec ch ≤ 1 ∧ (major ≠ 0x02 → padFrames major codec ch = 0) := by
-  unfold padFrames; constructor
+/-- no container needs a pad-frame allowance any more (AIFF lost it with the repair of KF-AIFF-ODD-PAD) -/
+theorem pad_bound (major codec ch : Nat) : padFrames major codec ch = 0 := rfl
+
+/-- the table before that repair: at most one frame, and zero outside AIFF one-byte encodings -/
+theorem pad_bound_old_rule (major codec ch : Nat) : padFramesOld major codec ch ≤ 1 ∧ (major ≠ 0x02 → padFramesOld major codec ch = 0) := by
+  unfold padFramesOld; constructor
   · dsimp only; split <;> omega
   · intro h; simp [h]
 
